@@ -136,6 +136,12 @@ func (e *enc) call(c *Case) {
 	} else {
 		e.i(1)
 	}
+	e.s(`,"sden":`)
+	if c.Sden > 1 {
+		e.i(c.Sden)
+	} else {
+		e.i(1)
+	}
 	e.s(`,"ls":`)
 	e.i(c.Ls)
 	e.s(`,"fixed":`)
@@ -223,6 +229,14 @@ func (e *enc) ret(c *Case, res *outcome, rec *recorder, src graph.EdgeSlice, siz
 		e.q(un(n.W))
 		e.s(`,"h":`)
 		e.q(un(n.H))
+		if c.Sden > 1 {
+			// sizes off the binary grid: the exact float64 of the returned width and height (compared with cfx / cmx below)
+			e.s(`,"sx":[`)
+			e.ex(un(n.W))
+			e.s(",")
+			e.ex(un(n.H))
+			e.s("]")
+		}
 		if c.Ex == 1 {
 			e.s(`,"ex":[`)
 			e.ex(un(n.X))
@@ -303,6 +317,29 @@ func (e *enc) ret(c *Case, res *outcome, rec *recorder, src graph.EdgeSlice, siz
 		e.s("1")
 	} else {
 		e.s("0")
+	}
+	if c.Sden > 1 {
+		// the exact float64 values that were handed to WithNodeFixedSize / WithNodeSize
+		e.s(`,"cfx":[`)
+		if len(c.Fixed) == 2 {
+			e.ex(un(c.size(c.Fixed[0])))
+			e.s(",")
+			e.ex(un(c.size(c.Fixed[1])))
+		}
+		e.s(`],"cmx":[`)
+		for k, sm := range c.Smap {
+			if k > 0 {
+				e.s(",")
+			}
+			e.s("[")
+			if len(sm) >= 3 {
+				e.ex(un(c.size(sm[1])))
+				e.s(",")
+				e.ex(un(c.size(sm[2])))
+			}
+			e.s("]")
+		}
+		e.s("]")
 	}
 	if c.After == 1 {
 		// the caller's data re-read after the call
